@@ -18,7 +18,7 @@ def _unl():
 
 def run_lines(exe, lines, timeout=3000, shards=None, args=()):
     """run a line-protocol binary over `lines` on several processes"""
-    if not lines: return []
+    if not lines: return [], []
     shards = shards or min(NCPU, max(1, len(lines) // 40))
     chunks = [lines[i::shards] for i in range(shards)]
     procs = []
